@@ -30,6 +30,9 @@ type Fault struct {
 	Nth    int    `json:"nth"`
 	HoldMs int    `json:"hold_ms,omitempty"`
 	Rst    bool   `json:"rst,omitempty"`
+	// AfterMs > 0: the fault fires so long after the carrier was opened,
+	// wherever the stream is then (Cls "time"), instead of at a byte position.
+	AfterMs int `json:"after_ms,omitempty"`
 }
 
 // Link is one carrier as the forwarder sees it.
@@ -156,6 +159,10 @@ func (f *Forwarder) serve(cli net.Conn) {
 	l.mu.Unlock()
 	sk := srv.LocalAddr().String()
 	f.bySrvAddr.Store(sk, l)
+	if l.Fault != nil && l.Fault.AfterMs > 0 {
+		t := time.AfterFunc(time.Duration(l.Fault.AfterMs)*time.Millisecond, func() { l.fire(true, cli, srv) })
+		defer t.Stop()
+	}
 	var wg sync.WaitGroup
 	wg.Add(2)
 	go func() { defer wg.Done(); l.pump(cli, srv, true) }()
@@ -230,7 +237,7 @@ func (l *Link) fire(dirUp bool, src, dst net.Conn) {
 
 func (l *Link) pump(src, dst net.Conn, up bool) {
 	var p *parser
-	if l.Fault != nil && ((l.Fault.Dir == "up") == up) {
+	if l.Fault != nil && l.Fault.AfterMs == 0 && ((l.Fault.Dir == "up") == up) {
 		p = newParser(up, l.Fault)
 	}
 	buf := make([]byte, 32*1024)
